@@ -48,7 +48,7 @@ def concretise(prof, rng, kind, val):
         body = bytes(rng.getrandbits(8) for _ in range(rng.choice([0, 1, 5, 40, 300])))
         return ('unk', [uid], P.VI(uid) + body)
     if kind == 'known':
-        return ('known', key64(val), prof.time_update(val, 6000))
+        return ('known', key64(val % (2 ** 31)), prof.known_unhandled(val % (2 ** 31))[1])
     if kind == 'disc':
         return ('disc', [], prof.play_disconnect('{"text":"bye"}'))
     raise ValueError(kind)
@@ -67,6 +67,8 @@ def packet_obs(pkt, prof):
         return ['pl', [int(pkt.x), int(pkt.y), int(pkt.z), int(pkt.yaw), int(pkt.pitch)]]
     if name == 'time update':
         return ['known', key64(pkt.world_age)]
+    if name == 'update health':
+        return ['known', key64(pkt.food)]
     if name == 'disconnect':
         return ['disc', []]
     return ['other', [0]]
